@@ -35,12 +35,21 @@ BASE = "artlib/common/BaseART.py"
 
 # attributes of `self` that the translated methods may read or write  ->  Lean variable, field of Art.Imp.Self
 SELF_FIELDS = {"W": ("self_W", "W"), "weight_sample_counter_": ("self_cnt", "cnt"),
-               "sample_counter_": ("self_n", "n"), "params": ("self_params", "params")}
+               "sample_counter_": ("self_n", "n"), "params": ("self_params", "params"),
+               "labels_": ("self_labels", "labels"), "__hasW": ("self_hasW", "hasW")}
+# attributes that are only ever written (flags nobody in the translated code reads): assignments are dropped
+WRITE_ONLY = {"is_fitted_"}
+# calls that only check their argument (assert / raise) or record the data width: dropped; the theorems are about
+# calls on valid data (validation is C18's subject)
+GUARDS = {"validate_data", "check_dimensions"}
+GUARD_FUNCS = {"check_is_fitted"}
+# methods translated on their own and called from other translated methods, in translation order
+TRANSLATED = ["step_fit", "step_pred", "predict", "partial_fit", "fit"]
 # BaseART methods whose (small) bodies are translated in place of the call
-INLINE = {"add_weight", "set_weight", "_set_params", "_deep_copy_params"}
+INLINE = {"add_weight", "set_weight", "_set_params", "_deep_copy_params", "pre_step_fit", "post_step_fit", "post_fit"}
 # methods kept abstract: name -> (field of Art.Imp.Ext, parameter names after self, attributes written)
 EXTERNAL = {
-    "category_choice": ("category_choice", ["i", "w", "params"], ()),
+    "category_choice": ("category_choice", ["i", "w", "params"], ()),        # also reads self.W (READS below)
     "match_criterion_bin": ("match_criterion_bin", ["i", "w", "params", "cache", "op"], ()),
     "update": ("update", ["i", "w", "params", "cache"], ()),
     "new_weight": ("new_weight", ["i", "params"], ()),
@@ -48,17 +57,22 @@ EXTERNAL = {
     "_match_tracking_operator": ("operator", ["method"], ()),
 }
 # callables received as arguments: parameter names in call order (what the library documents for reset functions)
+READS = {"category_choice": ["W"]}
 CALLBACKS = {"match_reset_func": ["i", "w", "cluster", "params", "cache"]}
-CALLBACK_TYPE = {"match_reset_func": "X → Wt → Nat → P → C → Bool"}
-PARAM_TYPES = {"x": "X", "match_tracking": "Art.MT", "epsilon": "α"}
+CALLBACK_TYPE = {"match_reset_func": "Xt → Wt → Nat → P → C → Bool"}
+PARAM_TYPES = {"x": "Xt", "match_tracking": "Art.MT", "epsilon": "α", "X": ("list", "Xt"), "max_iter": "Nat", "verbose": "Bool"}
+IGNORED_PARAMS = {"y"}          # accepted for sklearn compatibility, never read by BaseART
 
 
 # ------------------------------------------------------------------------------------------------ types
 # atoms are strings ("Nat", "Bool", "X", "Wt", "P", "C", "α", "Art.MT"); ("list", t); ("opt", t); ("prod", [t...])
-SELF_TYPES = {"W": ("list", "Wt"), "weight_sample_counter_": ("list", "Nat"), "sample_counter_": "Nat", "params": "P"}
+SELF_TYPES = {"W": ("list", "Wt"), "weight_sample_counter_": ("list", "Nat"), "sample_counter_": "Nat", "params": "P",
+              "labels_": ("list", "Nat"), "__hasW": "Bool"}
 EXTERNAL_RET = {"category_choice": ("prod", [("opt", "α"), "C"]), "match_criterion_bin": ("prod", ["Bool", "C"]),
                 "update": "Wt", "new_weight": "Wt", "_match_tracking": "Bool", "_match_tracking_operator": "Bool"}
-RET_TYPE = "Art.Imp.Self Wt P × Nat"
+SELF_TY = "Art.Imp.Self Wt P"
+# what each translated method returns (besides the new self)
+METHOD_RET = {"step_fit": "Nat", "step_pred": "Nat", "predict": ("list", "Nat"), "partial_fit": "Unit", "fit": "Unit"}
 
 
 def lean_ty(t) -> str:
@@ -68,6 +82,8 @@ def lean_ty(t) -> str:
         return f"List ({lean_ty(t[1])})" if not isinstance(t[1], str) else f"List {t[1]}"
     if t[0] == "opt":
         return f"Option {lean_ty(t[1])}" if isinstance(t[1], str) else f"Option ({lean_ty(t[1])})"
+    if t[0] == "enum":
+        return f"List ({lean_ty(t[1])} × Nat)"
     if t[0] == "prod":
         return " × ".join(lean_ty(x) if isinstance(x, str) or x[0] != "prod" else f"({lean_ty(x)})" for x in t[1])
     raise Unsupported(f"type {t}")
@@ -107,12 +123,14 @@ class Env:
         self.types: dict[str, object] = {v[0]: SELF_TYPES[a] for a, v in SELF_FIELDS.items()}   # lean identifier -> type
         self.helpers: list[str] = []        # shared: top-level helper definitions (loop conditions / bodies)
         self.fn = ""
+        self.ret_ty = "Nat"                 # what the method returns besides the new self
+        self.loopn = [0]                    # shared loop counter
 
     def copy(self):
         e = Env(self.tree, self.cls)
         e.names, e.bound, e.prefix, e.in_loop, e.callbacks = dict(self.names), list(self.bound), self.prefix, self.in_loop, set(self.callbacks)
         e.rec = self.rec
-        e.types, e.helpers, e.fn = dict(self.types), self.helpers, self.fn
+        e.types, e.helpers, e.fn, e.ret_ty, e.loopn = dict(self.types), self.helpers, self.fn, self.ret_ty, self.loopn
         return e
 
     def bind(self, py: str, ty=None) -> str:
@@ -144,6 +162,29 @@ class Env:
 
 def self_pack() -> str:
     return "{ " + ", ".join(f"{f} := {v}" for v, f in SELF_FIELDS.values()) + " }"
+
+
+def self_unpack(src: str, env: "Env") -> list[str]:
+    out = []
+    for a, (v, f) in SELF_FIELDS.items():
+        env.bind_self(a)
+        out.append(f"let {v} := {src}.{f}")
+    return out
+
+
+def ret_type(env: "Env") -> str:
+    return f"{SELF_TY} × {lean_ty(env.ret_ty)}"
+
+
+def method_has_loop(tree, cls, m) -> bool:
+    f = find_function(tree, cls, m)
+    for n in ast.walk(f):
+        if isinstance(n, ast.While):
+            return True
+        sc = self_call(n)
+        if sc and sc[0] in TRANSLATED and sc[0] != m and method_has_loop(tree, cls, sc[0]) and False:
+            return True
+    return False
 
 
 # ---------------------------------------------------------------------------------------------- expressions
@@ -214,6 +255,8 @@ def ext(e: ast.AST, env: Env):
         if e.id in env.names:
             ln = env.names[e.id]
             return ln, env.types.get(ln)
+        if e.id == "self":
+            return "()", "Unit"       # `return self`: the new self is returned anyway
         raise Unsupported(f"unbound name {e.id}")
     if isinstance(e, ast.Constant):
         v = e.value
@@ -233,6 +276,11 @@ def ext(e: ast.AST, env: Env):
         return SELF_FIELDS[a][0], env.types[SELF_FIELDS[a][0]]
     if isinstance(e, ast.Attribute) and ast.unparse(e) == "np.nan":
         return "none", ("opt", "α")
+    if isinstance(e, ast.Subscript) and isinstance(e.value, ast.Attribute) and e.value.attr == "shape" \
+            and isinstance(e.slice, ast.Constant) and e.slice.value == 0:
+        bt, bty = ext(e.value.value, env)
+        elem_ty(bty, "shape[0]")
+        return f"({bt}).length", "Nat"
     if isinstance(e, ast.Tuple):
         parts = [ext(t, env) for t in e.elts]
         return "(" + ", ".join(t for t, _ in parts) + ")", ("prod", [ty for _, ty in parts])
@@ -294,7 +342,9 @@ def ext(e: ast.AST, env: Env):
                     raise Unsupported(f"self.{m} writes {writes} and is used inside an expression")
                 if signature_of(env, m) != names:
                     raise Unsupported(f"signature of {m} is {signature_of(env, m)}")
-                return "(E." + field + " " + " ".join(arg(x, env) for x in order_args(call, names, m)) + ")", EXTERNAL_RET[m]
+                reads = " ".join(SELF_FIELDS[r_][0] for r_ in READS.get(m, []))
+                return "(E." + field + " " + (reads + " " if reads else "") + \
+                    " ".join(arg(x, env) for x in order_args(call, names, m)) + ")", EXTERNAL_RET[m]
             if m in INLINE:
                 f = find_function(env.tree, env.cls, m)
                 body = strip_doc(f.body)
@@ -309,6 +359,16 @@ def ext(e: ast.AST, env: Env):
                 return "(" + env.names[fn] + " " + " ".join(arg(x, env) for x in order_args(e, names, fn)) + ")", "Bool"
             if fn == "len" and len(e.args) == 1:
                 return f"({ex(e.args[0], env)}).length", "Nat"
+            if fn == "hasattr" and src == "hasattr(self, 'W')":
+                return "self_hasW", "Bool"
+            if fn == "enumerate" and len(e.args) == 1 and not e.keywords:
+                it, ity = ext(e.args[0], env)
+                return f"(List.zipIdx ({it}))", ("enum", elem_ty(ity, "enumerate"))
+            if fn == "range" and len(e.args) == 1 and not e.keywords:
+                return f"(List.range {arg(e.args[0], env)})", ("list", "Nat")
+            if fn == "tqdm" and len(e.args) == 1:
+                return ext(e.args[0], env)          # a progress bar is the identity on the iterator
+
             if fn == "deepcopy" and len(e.args) == 1:
                 return ext(e.args[0], env)
             if fn == "any" and src.startswith("any(~np.isnan(") and isinstance(e.args[0], ast.UnaryOp):
@@ -322,8 +382,26 @@ def ext(e: ast.AST, env: Env):
                     return f"((Art.nanargmax {ex(c2.args[0], env)}).getD 0)", "Nat"
                 if name2 == "np.argmax" and len(c2.args) == 1:
                     return f"((Art.argmaxNp {ex(c2.args[0], env)}).getD 0)", "Nat"
+            if fn == "int" and len(e.args) == 1:
+                it_, ity_ = ext(e.args[0], env)
+                if ity_ == "Nat":
+                    return it_, "Nat"
         if ast.unparse(e.func) == "np.array" and len(e.args) == 1 and not e.keywords:
             return ext(e.args[0], env)
+        if ast.unparse(e.func) == "np.zeros" and len(e.args) == 1 and isinstance(e.args[0], ast.Tuple) and len(e.args[0].elts) == 1 \
+                and [ast.unparse(k_) for k_ in e.keywords] == ["dtype=int"]:
+            n_, nty = ext(e.args[0].elts[0], env)
+            if nty != "Nat":
+                raise Unsupported("np.zeros length")
+            return f"(List.replicate {n_} 0)", ("list", "Nat")
+        if ast.unparse(e.func) == "np.pad" and len(e.args) == 2 and [ast.unparse(k_) for k_ in e.keywords] == ["mode='constant'"] \
+                and isinstance(e.args[1], ast.List) and len(e.args[1].elts) == 1 and isinstance(e.args[1].elts[0], ast.Tuple) \
+                and len(e.args[1].elts[0].elts) == 2 and ast.unparse(e.args[1].elts[0].elts[0]) == "0":
+            bt, bty = ext(e.args[0], env)
+            n_, nty = ext(e.args[1].elts[0].elts[1], env)
+            if bty != ("list", "Nat") or nty != "Nat":
+                raise Unsupported("np.pad of something that is not a label vector")
+            return f"({bt} ++ List.replicate {n_} 0)", ("list", "Nat")
         raise Unsupported(f"call {src[:80]}")
     raise Unsupported(f"expression {ast.unparse(e)[:80]}")
 
@@ -365,7 +443,7 @@ def param_decl(ln: str, env: Env) -> str:
     return f"({ln} : {lean_ty(env.types[ln])})"
 
 
-HEADER_CLASSES = "{X Wt P C α : Type} [LT α] [DecidableRel (α := α) (· < ·)] [Inhabited Wt] [Inhabited C]"
+HEADER_CLASSES = "{Xt Wt P C α : Type} [LT α] [DecidableRel (α := α) (· < ·)] [Inhabited Wt] [Inhabited C]"
 
 
 # ----------------------------------------------------------------------------------------------- statements
@@ -387,12 +465,34 @@ def tr_block(stmts, env: Env, k: K) -> list[str]:
     def cont(lines: list[str]) -> list[str]:
         return lines + tr_block(rest, env, k)
 
-    if isinstance(s, ast.Pass) or isinstance(s, ast.Assert):
+    if isinstance(s, (ast.Pass, ast.Assert, ast.ImportFrom, ast.Import)):
         return tr_block(rest, env, k)
+    if isinstance(s, ast.Expr) and isinstance(s.value, ast.Call):
+        sc0 = self_call(s.value)
+        if (sc0 and sc0[0] in GUARDS) or (isinstance(s.value.func, ast.Name) and s.value.func.id in GUARD_FUNCS):
+            return tr_block(rest, env, k)
+    if isinstance(s, ast.AnnAssign) and s.value is not None:
+        s = ast.Assign(targets=[s.target], value=s.value)
+    if isinstance(s, ast.Assign) and len(s.targets) == 1 and is_self_attr(s.targets[0]) in WRITE_ONLY:
+        return tr_block(rest, env, k)
+    if isinstance(s, ast.Assign) and len(s.targets) == 1 and is_self_attr(s.targets[0]) in SELF_FIELDS \
+            and isinstance(s.value, ast.List) and not s.value.elts:
+        a0 = is_self_attr(s.targets[0])
+        v0 = env.bind_self(a0)
+        extra = []
+        if a0 == "W":
+            extra = [f"let {env.bind_self('__hasW')} := true"]
+        return cont([f"let {v0} := []"] + extra)
+    if isinstance(s, ast.Assign) and len(s.targets) == 1 and isinstance(s.targets[0], ast.Name) and self_call(s.value) \
+            and self_call(s.value)[0] in TRANSLATED:
+        m, call = self_call(s.value)
+        return cont(call_translated(m, call, env, s.targets[0].id))
     if isinstance(s, ast.Return):
         if rest:
             raise Unsupported("code after return")
-        val = "()" if s.value is None else ex(s.value, env)
+        val, vty = ("()", "Unit") if s.value is None else ext(s.value, env)
+        if vty != env.ret_ty:
+            raise Unsupported(f"{env.fn} returns {vty}, expected {env.ret_ty}")
         return [k.ret(f"({self_pack()}, {val})")]
     if isinstance(s, ast.AugAssign):
         if not isinstance(s.op, ast.Add):
@@ -457,7 +557,8 @@ def tr_block(stmts, env: Env, k: K) -> list[str]:
         if a is not None:
             rhs = ex(s.value, env)
             v = env.bind_self(a)
-            return cont([f"let {v} := {rhs}"])
+            extra = [f"let {env.bind_self('__hasW')} := true"] if a == "W" else []
+            return cont([f"let {v} := {rhs}"] + extra)
         if isinstance(t, ast.Subscript):
             base = t.value
             a = is_self_attr(base)
@@ -556,39 +657,126 @@ def tr_block(stmts, env: Env, k: K) -> list[str]:
         be.in_loop = True
         body = tr_block(s.body, be, K(lambda e_: [f".next {tup}"], lambda t_: f".ret {t_}"))
         # condition and body become top-level definitions, parameterised by the variables they read
-        k_ = sum(1 for h in env.helpers if h.startswith("/-- loop")) // 2 + 1
+        env.loopn[0] += 1
+        k_ = env.loopn[0]
         cname, bname = f"{env.fn}_loop{k_}_cond", f"{env.fn}_loop{k_}_body"
         cfv = free_vars(cond, env, exclude=carried)
         bfv = free_vars("\n".join(body), env, exclude=carried)
         env.helpers.append("\n".join(
             [f"/-- loop {k_} of `{env.cls}.{env.fn}`: the `while` condition `{ast.unparse(s.test)}` -/",
              f"def {cname} {HEADER_CLASSES}",
-             "    (E : Art.Imp.Ext X Wt P C α) " + " ".join(param_decl(v, env) for v in cfv) + f" :",
+             "    (E : Art.Imp.Ext Xt Wt P C α) " + " ".join(param_decl(v, env) for v in cfv) + f" :",
              f"    {state_ty} → Bool :=",
              f"  fun {tup} => {cond}"]) + "\n")
         env.helpers.append("\n".join(
             [f"/-- loop {k_} of `{env.cls}.{env.fn}`: one iteration of the body -/",
              f"def {bname} {HEADER_CLASSES}",
-             "    (E : Art.Imp.Ext X Wt P C α) " + " ".join(param_decl(v, env) for v in bfv) + " :",
-             f"    {state_ty} → Art.Imp.Flow ({RET_TYPE}) ({state_ty}) :=",
+             "    (E : Art.Imp.Ext Xt Wt P C α) " + " ".join(param_decl(v, env) for v in bfv) + " :",
+             f"    {state_ty} → Art.Imp.Flow ({ret_type(env)}) ({state_ty}) :=",
              f"  fun {tup} =>"] + ind(body, 4)) + "\n")
         for v in carried:
             env._mark(v)
         after = tr_block(rest, env, k)
         return ([f"match Art.Imp.whileFuel ({cname} E {' '.join(cfv)}) ({bname} E {' '.join(bfv)}) fuel {tup} with",
                  f"| .ret r_ => {k.ret('r_')}", f"| .next {tup} =>"] + ind(after))
+    if isinstance(s, ast.For):
+        if s.orelse:
+            raise Unsupported("for/else")
+        it, ity = ext(s.iter, env)
+        before = env.defined()
+
+        def bind_target(e_):
+            if isinstance(s.target, ast.Name):
+                if isinstance(ity, tuple) and ity[0] == "enum":
+                    raise Unsupported("enumerate needs two loop variables")
+                nm = s.target.id if s.target.id != "_" else "it_"
+                return e_.bind(nm, elem_ty(ity, "for"))
+            if isinstance(s.target, ast.Tuple) and len(s.target.elts) == 2 and all(isinstance(t_, ast.Name) for t_ in s.target.elts) \
+                    and isinstance(ity, tuple) and ity[0] == "enum":
+                i_ = e_.bind(s.target.elts[0].id, "Nat")
+                v_ = e_.bind(s.target.elts[1].id, ity[1])
+                return f"({v_}, {i_})"          # List.zipIdx yields (value, index)
+            raise Unsupported(f"for target {ast.unparse(s.target)}")
+        d = env.copy()
+        d.rec = []
+        d.helpers = []
+        d.loopn = [0]
+        bind_target(d)
+        d.rec = []
+        tr_block(s.body, d, K(lambda e_: [], lambda t_: ""))
+        carried = [v for v in d.rec if v in before]
+        if not carried:
+            raise Unsupported("for loop that changes nothing")
+        tup = tuple_pat(carried)
+        state_ty = lean_ty(("prod", [env.types[v] for v in carried])) if len(carried) > 1 else lean_ty(env.types[carried[0]])
+        elem_lean = lean_ty(("prod", [ity[1], "Nat"])) if ity[0] == "enum" else lean_ty(elem_ty(ity, "for"))
+        be = env.copy()
+        be.in_loop = True
+        pat = bind_target(be)
+        body = tr_block(s.body, be, K(lambda e_: [f".next {tup}"], lambda t_: f".ret {t_}"))
+        env.loopn[0] += 1
+        k_ = env.loopn[0]
+        bname = f"{env.fn}_loop{k_}_body"
+        own = set(__import__("re").findall(r"[A-Za-z_][A-Za-z_0-9]*", pat))
+        bfv = free_vars("\n".join(body), env, exclude=list(carried) + list(own))
+        fuel_p = "(fuel : Nat) " if " fuel" in "\n".join(body) else ""
+        env.helpers.append("\n".join(
+            [f"/-- loop {k_} of `{env.cls}.{env.fn}`: one iteration of `for {ast.unparse(s.target)} in {ast.unparse(s.iter)}` -/",
+             f"def {bname} {HEADER_CLASSES}",
+             "    (E : Art.Imp.Ext Xt Wt P C α) " + fuel_p + " ".join(param_decl(v, env) for v in bfv) + " :",
+             f"    {state_ty} → {elem_lean} → Art.Imp.Flow ({ret_type(env)}) ({state_ty}) :=",
+             f"  fun {tup} {pat} =>"] + ind(body, 4)) + "\n")
+        for v in carried:
+            env._mark(v)
+        after = tr_block(rest, env, k)
+        return ([f"match Art.Imp.forEach ({bname} E {'fuel ' if fuel_p else ''}{' '.join(bfv)}) {it} {tup} with",
+                 f"| .ret r_ => {k.ret('r_')}", f"| .next {tup} =>"] + ind(after))
     raise Unsupported(f"statement {type(s).__name__}: {ast.unparse(s)[:80]}")
+
+
+def call_translated(m: str, call: ast.Call, env: Env, target: str) -> list[str]:
+    """`t = self.m(args)` for a method translated on its own: pass the packed self, unpack the returned one"""
+    f = find_function(env.tree, env.cls, m)
+    names = [a_.arg for a_ in f.args.args[1:] if a_.arg not in IGNORED_PARAMS]
+    given = {n_: a_ for n_, a_ in zip([a_.arg for a_ in f.args.args[1:]], call.args)}
+    for kw in call.keywords:
+        if kw.arg in given or kw.arg is None:
+            raise Unsupported(f"{m}: keyword {kw.arg}")
+        given[kw.arg] = kw.value
+    args = []
+    for n_ in names:
+        if n_ not in given:
+            raise Unsupported(f"{m}: argument {n_} not supplied at the call (defaults are not translated)")
+        a_ = given[n_]
+        if n_ in CALLBACKS:
+            if not (isinstance(a_, ast.Name) and a_.id in env.callbacks):
+                raise Unsupported(f"{m}: {n_} must be passed through")
+            args += [env.names[a_.id] + "_is_none", env.names[a_.id]]
+        else:
+            args.append(arg(a_, env))
+    extra = set(given) - set(names) - IGNORED_PARAMS
+    if extra:
+        raise Unsupported(f"{m}: unexpected arguments {sorted(extra)}")
+    fuel = "(self_W).length " if method_has_loop(env.tree, env.cls, m) else ""
+    lines = [f"let r_ := {m} E {fuel}{self_pack()} " + " ".join(args)]
+    lines += self_unpack("r_.1", env)
+    v = env.bind(target, METHOD_RET[m])
+    lines.append(f"let {v} := r_.2")
+    return lines
 
 
 def translate_method(tree, cls: str, name: str) -> str:
     f = find_function(tree, cls, name)
     env = Env(tree, cls)
     env.fn = name
+    env.ret_ty = METHOD_RET[name]
     params = []
     a = f.args
     if a.vararg or a.kwarg or a.kwonlyargs or a.posonlyargs:
         raise Unsupported(f"{name}: signature")
     for x in a.args[1:]:
+        if x.arg in IGNORED_PARAMS:
+            continue
         if x.arg in CALLBACKS:
             env.callbacks.add(x.arg)
             env.names[x.arg] = x.arg
@@ -596,19 +784,20 @@ def translate_method(tree, cls: str, name: str) -> str:
         elif x.arg in PARAM_TYPES:
             env.names[x.arg] = x.arg
             env.types[x.arg] = PARAM_TYPES[x.arg]
-            params.append(f"({x.arg} : {PARAM_TYPES[x.arg]})")
+            params.append(f"({x.arg} : {lean_ty(PARAM_TYPES[x.arg])})")
         else:
             raise Unsupported(f"{name}: parameter {x.arg}")
 
     def no_fall(e_):
         raise Unsupported(f"{name}: a path ends without return")
     body = tr_block(f.body, env, K(no_fall, lambda t_: t_))
+    fuel = "(fuel : Nat) " if method_has_loop(tree, cls, name) else ""
     head = [f"/-- generated from `{cls}.{name}` -/",
             f"def {name} {HEADER_CLASSES}",
-            f"    (E : Art.Imp.Ext X Wt P C α) (fuel : Nat) (self : Art.Imp.Self Wt P) " + " ".join(params) + " :",
-            f"    {RET_TYPE} :="]
+            f"    (E : Art.Imp.Ext Xt Wt P C α) {fuel}(self : {SELF_TY}) " + " ".join(params) + " :",
+            f"    {ret_type(env)} :="]
     pre = [f"let {v} := self.{fld}" for v, fld in SELF_FIELDS.values()]
-    return "\n".join(env.helpers) + "\n" + "\n".join(head + ind(pre + body)) + "\n"
+    return "\n".join(env.helpers) + ("\n" if env.helpers else "") + "\n".join(head + ind(pre + body)) + "\n"
 
 
 def generate(repo: Path) -> str:
@@ -616,7 +805,7 @@ def generate(repo: Path) -> str:
     chunks = ["/-",
               "GENERATED by harness/artv/ctrans.py from artlib/common/BaseART.py — do not edit.",
               "Regenerated on every run of the checks that name it; `ArtGenProofs/ControlSpec.lean` proves the",
-              "definition equal to the model's `Art.stepFit` for all arguments.",
+              "definitions equal to the model's `stepFit`, `stepPred`, `predict`, `partialFit`, `fit` for all arguments.",
               "-/",
               "import ArtModel.Imp",
               "import ArtModel.Search",
@@ -624,10 +813,10 @@ def generate(repo: Path) -> str:
               "set_option linter.unusedVariables false",
               "",
               "namespace Art.Gen.BaseART",
-              "",
-              translate_method(tree, "BaseART", "step_fit"),
-              "end Art.Gen.BaseART",
               ""]
+    for m in TRANSLATED:
+        chunks.append(translate_method(tree, "BaseART", m))
+    chunks += ["end Art.Gen.BaseART", ""]
     return "\n".join(chunks)
 
 
